@@ -48,6 +48,29 @@ class _Return(Exception):
         self.v = v
 
 
+class _Trial(Exception):
+    pass
+
+
+def _same_val(a, b):
+    if isinstance(a, Ptr) and isinstance(b, Ptr):
+        return a.base == b.base and a.off == b.off and a.esz == b.esz
+    if isinstance(a, Ptr) or isinstance(b, Ptr):
+        return False
+    return a == b
+
+
+def _has_effects(n):
+    for x in n.walk():
+        if x.k in ("CompoundAssignOperator", "CallExpr"):
+            return True
+        if x.k == "BinaryOperator" and x.op == "=":
+            return True
+        if x.k == "UnaryOperator" and x.op in ("++", "--"):
+            return True
+    return False
+
+
 TYPE_SIZES = {"char": 1, "unsigned char": 1, "signed char": 1, "uint8_t": 1, "int8_t": 1, "bool": 1,
               "_Bool": 1, "short": 2, "unsigned short": 2, "uint16_t": 2, "int16_t": 2,
               "int": 4, "unsigned int": 4, "uint32_t": 4, "int32_t": 4, "float": 4,
@@ -177,6 +200,8 @@ class Interp:
 
     def decide(self, node):
         """Truth value for an unknown condition: replay recorded decisions, fork on new ones."""
+        if getattr(self, "in_trial", False):
+            raise _Trial()
         if self.dpos < len(self.decisions):
             v = self.decisions[self.dpos]
             self.dpos += 1
@@ -213,7 +238,14 @@ class Interp:
                     env[d["d"]] = U
         elif k == "IfStmt":
             kids = [x for x in s.c if x is not None]
-            c = self.truth(kids[0], env, fn, depth)
+            v = self.rv(self.ev(kids[0], env, fn, depth), env)
+            if isinstance(v, int) or isinstance(v, Ptr):
+                c = (v != 0) if isinstance(v, int) else True
+            else:
+                # unknown condition: if both arms leave the cursor state identical, do not fork
+                if self.try_merge(kids, env, fn, depth):
+                    return
+                c = self.decide(kids[0])
             if c:
                 self.stmt(kids[1], env, fn, depth)
             elif len(kids) > 2:
@@ -277,6 +309,38 @@ class Interp:
                     self.stmt(ch, env, fn, depth)
         else:
             self.ev(s, env, fn, depth)
+
+    def try_merge(self, kids, env, fn, depth):
+        if getattr(self, "in_trial", False):
+            raise _Trial()
+        acc0 = len(self.acc)
+        um0 = len(self.unknown_mem)
+        self.in_trial = True
+        try:
+            e1 = dict(env)
+            self.stmt(kids[1], e1, fn, depth)
+            e2 = dict(env)
+            if len(kids) > 2:
+                self.stmt(kids[2], e2, fn, depth)
+        except (_Trial, _Return, _Break, _Continue):
+            del self.acc[acc0:]
+            del self.unknown_mem[um0:]
+            self.in_trial = False
+            return False
+        self.in_trial = False
+        keys = set(e1) | set(e2)
+        for k_ in keys:
+            if not _same_val(e1.get(k_, U), e2.get(k_, U)):
+                # values that differ but are never cursor-relevant become unknown
+                a, b = e1.get(k_, U), e2.get(k_, U)
+                if isinstance(a, Ptr) or isinstance(b, Ptr):
+                    del self.acc[acc0:]
+                    del self.unknown_mem[um0:]
+                    return False
+                e1[k_] = U
+        env.clear()
+        env.update(e1)
+        return True
 
     def block(self, stmts, env, fn, depth):
         for st in stmts:
@@ -501,24 +565,30 @@ class Interp:
             if isinstance(a, int) and a == 0:
                 return 0
             if not isinstance(a, (int, Ptr)):
+                if not _has_effects(e.c[1]):
+                    b = self.rv(self.ev(e.c[1], env, fn, depth), env)
+                    return 0 if (isinstance(b, int) and b == 0) else U
                 if not self.decide(e.c[0]):
                     return 0
             b = self.rv(self.ev(e.c[1], env, fn, depth), env)
             if isinstance(b, int):
-                return 1 if b else 0
+                return (1 if b else 0) if isinstance(a, (int, Ptr)) else (0 if b == 0 else U)
             if isinstance(b, Ptr):
-                return 1
+                return 1 if isinstance(a, (int, Ptr)) else U
             return U
         if op == "||":
             a = self.rv(self.ev(e.c[0], env, fn, depth), env)
             if (isinstance(a, int) and a != 0) or isinstance(a, Ptr):
                 return 1
             if not isinstance(a, int):
+                if not _has_effects(e.c[1]):
+                    b = self.rv(self.ev(e.c[1], env, fn, depth), env)
+                    return 1 if ((isinstance(b, int) and b != 0) or isinstance(b, Ptr)) else U
                 if self.decide(e.c[0]):
                     return 1
             b = self.rv(self.ev(e.c[1], env, fn, depth), env)
             if isinstance(b, int):
-                return 1 if b else 0
+                return (1 if b else 0) if isinstance(a, int) else (1 if b != 0 else U)
             if isinstance(b, Ptr):
                 return 1
             return U
